@@ -56,6 +56,10 @@ def s_affine_law(eng, result):
     vol = z3.RealVal(1)
     for lo, hi in zip(los, his):
         vol = vol * (hi - lo)
+    if isinstance(result, (int, float)) and not isinstance(result, bool):
+        # a literal constant cannot be the value for every integrand and every rule (sides are positive, n >= 1): stated as False so that
+        # the obligation fails with the path's model instead of ending as an undecidable disequality with a DOT term
+        return z3.BoolVal(False)
     if dim == 1:
         # the 1-D routine scales the integrand values before the dot product: sum_i w_i ((b - a) f(x_i)); equal to
         # (b - a) sum_i w_i f(x_i) by linearity of the dot product (X-DOT-LINEAR, assumed)
@@ -114,7 +118,9 @@ for dim, cls in ((1, QuadScheme1D), (2, QuadScheme2D), (3, QuadScheme3D)):
     fN = lambda x: np.sin(x[0]) + x[-1] ** 2 * np.cos(x[min(1, dim - 1)])
     # generic boxes, boxes with end points exactly 0, negative boxes, very small and very large sides
     for boxes in ([(1.5, 4.0), (-2.0, 1.0), (0.25, 7.0)], [(1.0, 2.0), (0.0, 1.0), (-1.0, 0.0)], [(-2.0, -1.0), (-1.0, 0.0), (3.0, 4.0)],
-                  [(0.0, 1e-3), (5.0, 5.5), (0.0, 2e3)]):
+                  [(0.0, 1e-3), (5.0, 5.5), (0.0, 2e3)],
+                  # short sides far from the origin (side / position ~ 5e-6): nothing may compare end points "up to rounding"
+                  [(100.0, 100.0005), (-750.0, -749.998), (64.0, 64.0 + 2.0 ** -11)], [(1000.0, 1000.005), (1e4, 1e4 + 0.03), (-2e3, -2e3 + 0.01)]):
         box = boxes[:dim]
         args = [v for ab in box for v in ab]
         got = s.integrate(f1 if dim == 1 else fN, *args)
